@@ -143,6 +143,8 @@ pub fn spec_c10() -> PropSpec {
         tape_len: 450,
         make: || vec![Box::new(super::c06::Aux(Box::new(ValueOracle::new()))), Box::new(SpecOracle::new())],
         nt_rule: "",
+        engine: "seq",
+        runner: None,
     }
 }
 
@@ -228,5 +230,7 @@ pub fn spec_c11() -> PropSpec {
         tape_len: 450,
         make: || vec![Box::new(super::c06::Aux(Box::new(ValueOracle::new()))), Box::new(AccStats::default())],
         nt_rule: "",
+        engine: "seq",
+        runner: None,
     }
 }
